@@ -351,7 +351,7 @@ impl<'tcx> Runner<'tcx> {
         if env != TypingEnv::fully_monomorphized() {
             // bodies are cached per instance; generic roots use their own environment
         }
-        let mut st = State { frames: vec![FrameSt::new(0)], atoms: Vec::new(), rng_count: 0 };
+        let mut st = State { frames: vec![FrameSt::new(0)], atoms: Vec::new(), rng_count: 0, facts: Rc::new(Default::default()) };
         let Some(bi) = self.ip.body_of(inst) else {
             self.ip.cur_root = saved_root;
             self.ip.env = saved_env;
@@ -496,6 +496,8 @@ pub fn run<'tcx>(tcx: TyCtxt<'tcx>) -> String {
         };
         rn.ip.taint_track = job.opts.contains_key("taint");
         rn.ip.moduli = Rc::new(job.opts.get("modulus").map(|s| s.split(',').filter_map(|x| x.parse::<i128>().ok()).collect()).unwrap_or_default());
+        rn.ip.peel = job.opts.get("peel").map(|s| s.split('|').filter_map(|x| x.rsplit_once(':').and_then(|(f, n)| Some((f.to_string(), n.parse::<u32>().ok()?)))).collect()).unwrap_or_default();
+        rn.ip.track_ret = job.opts.get("track_ret").map(|s| s.split('|').map(|x| x.to_string()).collect()).unwrap_or_default();
         rn.ip.probe_pats = job.opts.get("probe").map(|s| s.split('|').map(|x| x.to_string()).collect()).unwrap_or_default();
         let steps0 = rn.ip.steps;
         let probes0 = rn.ip.probes.len();
